@@ -458,6 +458,25 @@ class Languages:
             return None
         return ''.join(chr(self.alpha.classes[s][1]) for s in syms)
 
+    def symbol_of(self, ch):
+        cp = ord(ch)
+        sig = tuple(_contains(iv, cp) for iv in self.alpha.atoms)
+        for n, (s2, rep) in enumerate(self.alpha.classes):
+            if s2 == sig:
+                return n
+        return None
+
+    def accepts(self, a, text):
+        """Membership of a concrete string (anchors ignored)."""
+        d = self.dfa[a]
+        q = d.start
+        for ch in text:
+            s = self.symbol_of(ch)
+            if s is None:
+                return False
+            q = d.trans[q][s]
+        return q in d.accept
+
     def difference_witness(self, a, b):
         """A word in L(a) \\ L(b), or None."""
         return self.word(self.dfa[a].product(self.dfa[b], 'diff').witness())
